@@ -1,3 +1,4 @@
+mod bddops;
 mod gen;
 mod sem;
 mod util;
@@ -10,6 +11,7 @@ fn main() {
     }
     match args[1].as_str() {
         "sem" => sem::main(&args[2..]),
+        "bdd" => bddops::main(&args[2..]),
         other => {
             eprintln!("unknown subcommand {}", other);
             std::process::exit(2);
